@@ -5,7 +5,8 @@
      remove-node / create / remove, overlapping names, at most one injected
      failure of a store or plugin step), schedules s:
        all threads finished after s -> Ref (final world).
-   It is refuted by four witnesses (the C22_refuted theorems); what holds instead is the
+   It is refuted by three witnesses (a fourth, three-operation race found by exploring
+   triples was repaired: RemoveNode now re-reads the node under the pod lock) (the C22_refuted theorems); what holds instead is the
    C22_partial theorems below.  This file contains only the property theorems. *)
 From Coq Require Import List String.
 From Verif Require Import Calcium.Refs Calcium.RefsProofs Calcium.RefsIsolation.
@@ -31,18 +32,9 @@ Print Assumptions C22_refuted_create_removenode.
 (* witness 3 (single injected failure): RemoveNode's plugin removal fails after
    the store record is gone; the rollback is empty: a resource record without node. *)
 Theorem C22_refuted_removenode_fault :
-  quiescent_bad W2 [(ORemoveNode "n", Some 3)] [0; 0; 0; 0; 0; 0; 0; 0].
+  quiescent_bad W2 [(ORemoveNode "n", Some 4)] [0; 0; 0; 0; 0; 0; 0; 0; 0].
 Proof. exact refuted_removenode_fault. Qed.
 Print Assumptions C22_refuted_removenode_fault.
-
-(* witness 4 (three operations; found by exploring triples in the model):
-   RemoveNode fetches the node before it takes the pod lock; a second RemoveNode
-   holding the stale record removes the plugin record of a concurrent re-AddNode *)
-Theorem C22_refuted_stale_removenode :
-  quiescent_bad W2 [(OAddNode "n" "p", None); (ORemoveNode "n", None); (ORemoveNode "n", None)]
-                [2; 1; 1; 1; 1; 1; 1; 0; 2; 2; 2; 2; 2; 0; 0].
-Proof. exact refuted_stale_removenode. Qed.
-Print Assumptions C22_refuted_stale_removenode.
 
 (* the decision procedure used below is sound for ALL schedules: if [explore]
    accepts, every run that ends with all threads finished has a good verdict *)
@@ -91,7 +83,7 @@ Print Assumptions C22_partial_single_fault.
    preserve Ref; AddNode and RemoveNode do so under every placement of a single
    injected failure, except when the failure hits AddNode's own compensation
    (fault index 2 or 3 = the plugin removal after a failed store step) or
-   RemoveNode's plugin removal (index 3, witness 3).  [RefP] is the Prop form of
+   RemoveNode's plugin removal (index 4, witness 3).  [RefP] is the Prop form of
    ref_ok (C22_ref_reflect); [run1] runs one thread alone (= run_sched with the
    constant schedule, RefsIsolation.run1_sched). *)
 Theorem C22_ref_reflect : forall w, ref_ok w = true <-> RefP w.
@@ -115,7 +107,7 @@ Proof. exact add_node_ref. Qed.
 Print Assumptions C22_single_fault_add_node.
 
 Theorem C22_single_fault_remove_node : forall w n fl, RefP w -> held w = nil ->
-  let '(w', t') := run1 10 w (mkTh (remove_node n) 0 fl) in
-  finished t' = true /\ (RefP w' \/ fl = Some 3%nat).
+  let '(w', t') := run1 12 w (mkTh (remove_node n) 0 fl) in
+  finished t' = true /\ (RefP w' \/ fl = Some 4%nat).
 Proof. exact remove_node_ref. Qed.
 Print Assumptions C22_single_fault_remove_node.
